@@ -2,6 +2,8 @@
 bodies of token soup the parser accepts, module item mixes, impl blocks."""
 
 FN_ATTRS = [
+    "/// Summary.\n///\n/// ```text\n/// example\n/// ```\n///\n/// More.",     # token-identical doc attributes (blank lines, fences)
+    "#[allow(unused)]\n#[allow(unused)]",
     "/// a doc comment with \"quotes\" and \\ backslash",
     "/** block doc */",
     "#[doc = \"explicit doc\"]",
